@@ -99,9 +99,46 @@ def h_add_rule(ctx):
     ctx.cover('add_rule.returns')
 
 
+def h_unloadable_reported(ctx):
+    """"a rules file that cannot be loaded is reported to the user rather than treated as containing no rules": where `tally up` takes its rules from a
+    .rules file (cli._check_merchant_migration, the branch of the new format), the file has been handed to _report_unloadable_rules before its rules
+    are asked for - whatever --quiet and --migrate say (get_all_rules itself swallows the loader's error and answers with no rules)."""
+    from props import cmd_common as cc
+    sp = Spec()
+    I = Interp(ctx, sp)
+    w = cc.World(ctx, sp)
+    cfgd = {'_merchants_file': w.merchants_file, '_merchants_format': 'new', 'rule_mode': w.rule_mode}
+    sp.models['method:Obj:Config.get'] = Func(lambda I_, a, k, n: cfgd.get(a[1], a[2] if len(a) > 2 else None))
+    sp.truthy_classes.add('rulesfile')
+    w.merchants_file.cls = 'rulesfile'
+    seen = {'reported': [], 'asked': 0}
+
+    def m_report(I_, a, k, n):
+        seen['reported'].append(a[0] if a else None)
+        return I_.ctx.fresh('rules_file_unloadable', BoolS)
+
+    def m_get_all(I_, a, k, n):
+        seen['asked'] += 1
+        ctx.check('C17.up.the_rules_file_is_checked_for_being_loadable_before_its_rules_are_used_whatever_quiet_says',
+                  bool(a) and any(r is a[0] for r in seen['reported']), 'property')
+        return Untracked()
+    sp.models['_report_unloadable_rules'] = Func(m_report)
+    sp.models['get_all_rules'] = Func(m_get_all)
+    sp.models['len'] = Func(lambda I_, a, k, n: Untracked())
+    sp.models['sys.stdout.isatty'] = Func(lambda I_, a, k, n: bool(ctx.choose(2, 'interactive')))
+    sp.globals['C'] = Untracked()
+    fi = find_function('tally.cli._check_merchant_migration')
+    quiet, migrate = ctx.fresh('quiet', BoolS), ctx.fresh('migrate', BoolS)
+    I.call_function(fi, [w.config, w.config_dir, quiet, migrate])
+    ctx.check('C17.up.rules_of_a_rules_file_are_asked_for_once', seen['asked'] == 1, 'property')
+    ctx.cover('_check_merchant_migration.returns[new]')
+
+
 def harnesses(tier):
     from props import C17_sections, C17_rules
-    return [Harness('_add_rule', h_add_rule, [ME + 'MerchantEngine._add_rule', ME + 'MerchantRule.__post_init__'])] + C17_sections.harnesses(tier) + C17_rules.harnesses(tier)
+    return [Harness('_add_rule', h_add_rule, [ME + 'MerchantEngine._add_rule', ME + 'MerchantRule.__post_init__']),
+            Harness('_check_merchant_migration.unloadable_reported', h_unloadable_reported, ['tally.cli._check_merchant_migration'])] \
+        + C17_sections.harnesses(tier) + C17_rules.harnesses(tier)
 
 
 # ------------------------------------------------------------------------------------------ structural clauses
